@@ -49,12 +49,12 @@ UNSIGNED_FMT = set("BHILQ")
 def run(ctx):
     prog = ctx.prog
     f = prog.func("_sphere.copy_shortened_samples")
-    nep50(ctx, f)
-    commands(ctx, f)
-    eof(ctx, f)
-    predictors(ctx, f)
-    means(ctx, f)
-    uniform_post(ctx, f)
+    ctx.rule(nep50, f)
+    ctx.rule(commands, f)
+    ctx.rule(eof, f)
+    ctx.rule(predictors, f)
+    ctx.rule(means, f)
+    ctx.rule(uniform_post, f)
 
 
 # ------------------------------------------------------------------ constants
